@@ -220,6 +220,13 @@ def rule_listcs(ctx, rep):
         raise Broken("hand-over rules produced no C04 instance")
 
 
+def rule_wake(ctx, rep):
+    """call_rcu_completion_wake_up: reset the completion's futex word before FUTEX_WAKE, only when it is -1 (all flavors)"""
+    for fl in ALL:
+        F = FL[fl]
+        waitloop.check_wakers(rep, "C04.wake", fl, ctx.mod(F.lib, "perfn"), lambda name, ap: name == "call_rcu_completion.futex")
+
+
 RULES = [
     ("C04.cs", rule_cs),
     ("C04.cs", rule_listcs),
@@ -229,5 +236,6 @@ RULES = [
     ("C04.ref", rule_ref),
     ("C04.offline", rule_offline),
     ("C04.fifo", rule_fifo),
+    ("C04.wake", rule_wake),
 ]
 FLOORS = {}
